@@ -1,4 +1,5 @@
 """C12 — Directory-tree signatures change exactly when the tree changes (structural part)."""
+import re
 from sa.facts import AnalysisBroken, expr_str, qmatch, strip_casts, relpath, core, expr_plain
 from sa import cfg
 from sa.cfg import BranchFacts
@@ -33,6 +34,13 @@ def run(ctx):
     for task, (maker, sigfield) in TASKS.items():
         f = prog.fn(task + "::inputsAvailable")
         loop = [n for n in f.nodes if n.get("k") == "forrange" and expr_str(core(n.child("range"))) == "childResults"]
+        if not loop:
+            # index loop over the same vector: for (i = 0; i != childResults.size(); ++i) { ... childResults[i] ... }
+            for n in f.nodes:
+                if n.get("k") == "for" and "c" in n and expr_plain(n.child("c")).replace(" ", "") in ("(i!=childResults.size())", "(i<childResults.size())") and \
+                        "childResults[i]" in " ".join(expr_plain(x) for x in n.child("body").walk() if x.get("k") in ("decl", "call", "member")) and \
+                        re.sub(r"cast<[^>]*>\((\d+)\)", r"\1", expr_plain(n.child("init")).replace(" ", "")).endswith("i=0") and expr_plain(n.child("inc")).strip("()") in ("++i", "i++"):
+                    loop.append(n)
         if len(loop) != 1:
             raise AnalysisBroken("%s: child loop not found" % task)
         lp = loop[0]
@@ -289,6 +297,39 @@ def run(ctx):
     g = prog.fn("FilteredDirectoryContentsTask::getFilteredContents")
     bg = BranchFacts(g, kill="assign")
     sets = [n for n in g.nodes if n.get("k") == "bin" and n["op"] == "=" and expr_str(n.child("l")) == "excluded"]
+    pb = [c for c in g.calls("push_back") if "filenames" in expr_str(c.child("obj"))]
+    if not sets and len(pb) == 1:
+        # helper shape: `if (!matchesAnyFilter(filterStrings, filename)) filenames.push_back(filename);`
+        helper = None
+        for a_, p_ in (bg.at_node(pb[0]) or frozenset()):
+            if not p_:
+                for c in g.calls():
+                    h = prog.functions.get(c.get("fk")) if c.get("fk") else None
+                    if h is not None and h is not g and h.cls == g.cls and expr_str(c) == a_:
+                        helper = (h, c)
+        okh = helper is not None
+        why = "the kept-name test is not the negation of an any-pattern-matches helper"
+        if okh:
+            h, hc = helper
+            bh = BranchFacts(h, kill="assign")
+            ha = [expr_plain(x) for x in arg_nodes(hc)]
+            okh = len(h.params) == 2 and ha[0] == "filterStrings" and ha[1] == "filename"
+            pl = [n for n in h.nodes if n.get("k") == "forrange" and expr_str(core(n.child("range"))) == h.params[0]["n"]]
+            fm = h.calls("filenameMatch")
+            rets = [n for n in h.nodes if n.get("k") == "return"]
+            okh = okh and len(pl) == 1 and len(fm) == 1 and pl[0].get("var") in expr_str(arg_nodes(fm[0])[0]) and h.params[1]["n"] in expr_str(arg_nodes(fm[0])[1]) and \
+                not any(x.get("k") in ("break", "continue") for x in pl[0].child("body").walk())
+            t_in = [x for x in rets if any(y is x for y in pl[0].walk())] if pl else []
+            t_out = [x for x in rets if x not in t_in]
+            okh = okh and len(t_in) == 1 and core(t_in[0].child("e")).get("v") is True and \
+                any(p and "filenameMatch" in a and "MATCH" in a for a, p in (bh.at_node(t_in[0]) or frozenset())) and \
+                len(t_out) == 1 and core(t_out[0].child("e")).get("v") is False
+            why = "the helper does not return true exactly when some pattern matches the name (all patterns tried, in order, until a match)"
+        r.check(okh, "getFilteredContents|excluded-iff-match", "via helper", why, g)
+        r.check(okh, "getFilteredContents|all-patterns-tried", "via helper", why, g)
+        r.check(okh and expr_plain(arg_nodes(pb[0])[0]) == "filename", "getFilteredContents|kept-iff-not-excluded", "via helper", "a name is kept although excluded (or dropped although not)", g)
+        r.check(okh, "getFilteredContents|excluded-reset-per-name", "via helper (no flag)", "", g)
+        return
     ok = len(sets) == 1 and core(sets[0].child("r")).get("v") is True and any(p and "filenameMatch" in a and "MATCH" in a for a, p in (bg.at_node(sets[0]) or frozenset()))
     r.check(ok, "getFilteredContents|excluded-iff-match", "", "`excluded` is set other than on a pattern match", g)
     brk = [n for n in g.nodes if n.get("k") == "break"]
